@@ -445,6 +445,29 @@ def r_path(A, ctx, scope, rule="R-PATH"):
                                      f"instead of by its inverse (np.argsort({perm})), so for a grid whose sorting "
                                      "permutation is not its own inverse result i does not belong to alpha i") if again else "",
                                loc=loc(f, r))
+        # (0d) abandoning the rest of the grid (`break` in the path loop, e.g. when the residual vanishes) is
+        # only sound when the grid is swept from the largest strength down: every definition of the swept grid
+        # is then a descending sort or a decreasing geometric grid
+        brks = [x for x in ast.walk(lp) if isinstance(x, ast.Break)
+                and not any(isinstance(q, (ast.For, ast.While)) and q is not lp and any(x is y for y in ast.walk(q))
+                            for q in ast.walk(lp))]
+        if grid_name and brks:
+            gdefs = [st for st in ast.walk(f.node) if isinstance(st, ast.Assign) and len(st.targets) == 1
+                     and isinstance(st.targets[0], ast.Name) and st.targets[0].id == grid_name]
+
+            def descending(v):
+                if isinstance(v, ast.Subscript) and isinstance(v.slice, ast.Slice) and v.slice.step is not None \
+                        and ast.unparse(v.slice.step) == "-1" and "sort" in ast.unparse(v.value):
+                    return True
+                txt = ast.unparse(v)
+                return ("geomspace(1," in txt.replace(" ", "") or "logspace(0," in txt.replace(" ", ""))
+            bad_defs = [st for st in gdefs if not descending(st.value)]
+            n += 1
+            ctx.ob(rule, f"{f.fq}::break-needs-descending-grid", not bad_defs,
+                   what=(f"the path loop abandons the remaining grid points (`break` at line {brks[0].lineno}) but "
+                         f"`{norm_src(bad_defs[0])[:60]}` does not put the grid in descending order: strengths that "
+                         "come after the abandoned one and are larger (solvable) keep their initial zero "
+                         "coefficients") if bad_defs else "", loc=loc(f, brks[0]))
         # (1) alpha set before solve
         n += 1
         ok = False
